@@ -153,3 +153,21 @@ impl Handler {
         self
     }
 }
+
+#[cfg(ohkami_verif)]
+#[cfg(feature="__rt__")]
+#[doc(hidden)]
+pub mod __verif_handler {
+    use super::*;
+
+    /// the handler `register_handlers` installs in the OPTIONS tree for a route with these methods
+    pub fn default_options_handler(available_methods: Vec<&'static str>) -> Handler {
+        Handler::default_options_with(available_methods)
+    }
+    pub fn default_not_found() -> Handler {
+        Handler::default_not_found()
+    }
+    pub fn call<'b>(handler: &'b Handler, req: &'b mut Request) -> Pin<Box<dyn SendOnNativeFuture<Response> + 'b>> {
+        handler.proc.call_bite(req)
+    }
+}
